@@ -163,6 +163,18 @@ class C04(ApiScenario):
                   "certainly-registered handler, never to a handler certainly not registered for the watch; dispatcher/emitter threads never die with an exception.")
     level_note = "PCT gives the per-run hit probability for races of depth<=3; not exhaustive. Oracle speaks only about the harness's own invoke/return/queue/callback sequence numbers."
 
+    def gen_case(self, seed, tier, idx):
+        case = super().gen_case(seed, tier, idx)
+        rrng = random.Random(f"{seed}:rep")
+        if rrng.random() < 0.35:
+            # X, Y, X from one emitter: equal events that are not consecutive must both be delivered
+            for k in sorted(case["scripts"]):
+                sc = case["scripts"][k]
+                evs = [i for i, st in enumerate(sc) if st[0] == "ev"]
+                if len(evs) >= 2 and rrng.random() < 0.7:
+                    sc.insert(evs[rrng.randrange(1, len(evs))] + 1, ["rep"])
+        return case
+
     def oracle(self, run, sim, verdict, final):
         v = hang_violations("C04", verdict)
         v += uncaught_violations("C04", sim)
@@ -314,6 +326,7 @@ class C13(Scenario):
         started = False
         nconstruct = 0
         construct_at = []
+        ended = set()  # watches whose emitter has stopped itself (as an emitter does when its root is deleted)
         n = rng.randrange(3, 11)
         for i in range(n):
             r = rng.random()
@@ -327,14 +340,16 @@ class C13(Scenario):
                 h = rng.randrange(nh)
                 k = spec_key(specs[s])
                 ops.append(["schedule", h, s])
-                if k not in model:
+                if k not in model or k in ended:
                     construct_at.append(len(ops) - 1)
                     nconstruct += 1
+                    ended.discard(k)
                 model.setdefault(k, set()).add(h)
             elif r < 0.6:
                 s = rng.choice([i for i in range(nspec) if spec_key(specs[i]) in model])
                 ops.append(["unschedule", s])
                 del model[spec_key(specs[s])]
+                ended.discard(spec_key(specs[s]))
             elif r < 0.72:
                 s = rng.choice([i for i in range(nspec) if spec_key(specs[i]) in model])
                 h = rng.randrange(nh)
@@ -350,6 +365,13 @@ class C13(Scenario):
             elif r < 0.9:
                 ops.append(["unschedule_all"])
                 model.clear()
+                ended.clear()
+            elif r < 0.95 and running and any(k not in ended for k in model):
+                # the emitter of a scheduled watch stops itself; the watch stays scheduled and a later schedule() of
+                # an equal watch replaces the emitter (one emitter per watch before, during and after)
+                s = rng.choice([i for i in range(nspec) if spec_key(specs[i]) in model and spec_key(specs[i]) not in ended])
+                ops.append(["end", s])
+                ended.add(spec_key(specs[s]))
             else:
                 ops.append(["markers"])
         # fault position: cycles with the run index through "no fault", each construction position
@@ -392,9 +414,13 @@ class C13(Scenario):
             run.build()
             obs = run.observer
             model = {}
+            ended = set()
             running = False
             nconstructing = 0
             marker_n = 0
+
+            def ekey(e):
+                return (e.watch.path, e.watch.is_recursive, None if e.watch.event_filter is None else tuple(sorted(c.__name__ for c in e.watch.event_filter)))
 
             def check(after):
                 stats["checks"] += 1
@@ -407,8 +433,9 @@ class C13(Scenario):
                     found.append(Violation("registry", sig, f"after {after}: emitters {keys} but model has {sorted(model, key=repr)}"))
                     return False
                 for e in ems:
-                    if e.is_alive() != running:
-                        found.append(Violation("registry", f"C13:emitter-alive={e.is_alive()}-while-running={running}", f"after {after}: emitter {e._idx}"))
+                    want = running and ekey(e) not in ended
+                    if e.is_alive() != want:
+                        found.append(Violation("registry", f"C13:emitter-alive={e.is_alive()}-while-running={running}" + (":self-stopped" if ekey(e) in ended else ""), f"after {after}: emitter {e._idx}"))
                         return False
                 return True
 
@@ -457,9 +484,26 @@ class C13(Scenario):
                     continue
                 if kind == "remove_handler" and op[1] not in model.get(spec_key(case["specs"][op[2]]), ()):
                     continue
+                if kind == "end":
+                    k = spec_key(case["specs"][op[1]])
+                    if not running or k not in model or k in ended:
+                        continue
+                    em = [e for e in obs.emitters if ekey(e) == k]
+                    if len(em) != 1:
+                        found.append(Violation("registry", "C13:emitters!=model:self-stop", f"op {i} {op}: {len(em)} emitters for {k}"))
+                        break
+                    em[0].stop()  # what an emitter does to itself when its root has gone
+                    sim.wait_quiescent()
+                    sim.fault_fired("emitter_self_stop")
+                    ended.add(k)
+                    if check(f"op {i} {op}"):
+                        markers(f"op {i} {op}")
+                    continue
+                replacing = False
                 if kind == "schedule":
                     k = spec_key(case["specs"][op[2]])
-                    if k not in model:
+                    if k not in model or k in ended:
+                        replacing = k in ended
                         f = case["fault_positions"].get(str(nconstructing))
                         nconstructing += 1
                         if f == "start" and not running:
@@ -477,14 +521,18 @@ class C13(Scenario):
                 else:
                     if kind == "schedule":
                         model.setdefault(spec_key(case["specs"][op[2]]), set()).add(op[1])
+                        if replacing:
+                            ended.discard(spec_key(case["specs"][op[2]]))
                     elif kind == "unschedule":
                         del model[spec_key(case["specs"][op[1]])]
+                        ended.discard(spec_key(case["specs"][op[1]]))
                     elif kind == "add_handler":
                         model[spec_key(case["specs"][op[2]])].add(op[1])
                     elif kind == "remove_handler":
                         model[spec_key(case["specs"][op[2]])].discard(op[1])
                     elif kind == "unschedule_all":
                         model.clear()
+                        ended.clear()
                     elif kind == "start":
                         running = True
                 if check(f"op {i} {op}"):
